@@ -248,11 +248,50 @@ impl SimSource {
             None => false,
         }
     }
+    /// Send a batch through `EventSender::send_multiple`. The batch is handed over as an iterator whose (legal)
+    /// `size_hint` varies with the batch: exact, (0, Some(n)), (1, Some(n + 3)), (1, None), (0, None) -- the library
+    /// may use the hint as an optimisation only, every event of the batch has to arrive (seeded change C05-i).
     pub fn notify_many(&self, es: Vec<OwnedDirEntry>) -> bool {
+        let n = es.len();
+        let salt = match es.first() {
+            Some(OwnedDirEntry::File(id, ext)) => id.len() + ext.len(),
+            Some(OwnedDirEntry::Directory(id)) => id.len() + 1,
+            None => 0,
+        };
+        let (lo, hi) = match (n + salt) % 5 {
+            0 => (n, Some(n)),
+            1 => (0, Some(n)),
+            2 => (n.min(1), Some(n + 3)),
+            3 => (n.min(1), None),
+            _ => (0, None),
+        };
+        if lo == 1 && n > 1 && detsim::in_sim() {
+            detsim::count("reach.send_multiple_hint_lower_bound_1_of_many");
+        }
         match self.sender() {
-            Some(s) => s.send_multiple(es).is_ok(),
+            Some(s) => s.send_multiple(Hinted { inner: es.into_iter(), lo, hi }).is_ok(),
             None => false,
         }
+    }
+}
+/// An iterator over a batch of notifications with a chosen, legal `size_hint`.
+struct Hinted {
+    inner: std::vec::IntoIter<OwnedDirEntry>,
+    lo: usize,
+    hi: Option<usize>,
+}
+impl Iterator for Hinted {
+    type Item = OwnedDirEntry;
+    fn next(&mut self) -> Option<OwnedDirEntry> {
+        let x = self.inner.next();
+        if x.is_some() {
+            self.lo = self.lo.saturating_sub(1);
+            self.hi = self.hi.map(|h| h.saturating_sub(1));
+        }
+        x
+    }
+    fn size_hint(&self) -> (usize, Option<usize>) {
+        (self.lo.min(self.inner.len()), self.hi.map(|h| h.max(self.inner.len())))
     }
 }
 pub fn file_entry(id: &str, ext: &str) -> OwnedDirEntry {
